@@ -1298,3 +1298,92 @@ func (cx *Ctx) liftToCaller(c ssa.CallInstruction, fn *ssa.Function) ssa.CallIns
 	}
 	return nil
 }
+
+// checkProviderFromStorage: the service provider a handler works with is what storage returned for this request -
+// the result of GetServiceProvider has no source other than result #0 of Storage.GetEntityByID. A provider kept from
+// an earlier request (a cache in the IdentityProvider) may have been removed or changed since.
+func (cx *Ctx) checkProviderFromStorage(r *Report, handlers ...string) {
+	w := cx.W
+	n := 0
+	for _, hk := range handlers {
+		vf := cx.vflow(hk)
+		if vf == nil {
+			continue
+		}
+		for _, c := range w.callsTo(vf.scope, matchFnKey(w, "provider.(*IdentityProvider).GetServiceProvider")) {
+			call, ok := c.(*ssa.Call)
+			if !ok {
+				continue
+			}
+			n++
+			ls := LabelSet{}
+			vf.callResult(call, 0, 0, ls, map[string]bool{}, 0)
+			r.checkSources("R-VFG", "provider-from-storage@"+w.FuncKey(c.Parent()), w.InstrPos(c), ls, []string{"ext:iface:provider.IDPStorage.GetEntityByID#0", "ext:iface:provider.EntityStorage.GetEntityByID#0"}, nil, false)
+		}
+	}
+	r.Check(n > 0, "R-VFG", "provider-from-storage#sites", "", fmt.Sprintf("%d lookups", n), "no call of GetServiceProvider found in the handlers")
+}
+
+// checkLookupByIssuer: in the three request handlers the service provider is looked up under the Issuer of the
+// decoded request and nothing else (not under another field of the message such as a NameID qualifier): whoever is
+// named there is the party the reply is delivered to.
+func (cx *Ctx) checkLookupByIssuer(r *Report) {
+	w := cx.W
+	for _, h := range []struct{ hk, short, typ string }{{kSSO, "sso", "samlp.AuthnRequestType"}, {kLogout, "slo", "samlp.LogoutRequestType"}, {kAttr, "attr", "samlp.AttributeQueryType"}} {
+		vf := cx.vflow(h.hk)
+		if vf == nil {
+			continue
+		}
+		ls, sites := vf.CallArgSources(matchStorage("GetEntityByID"), 1)
+		if len(sites) == 0 {
+			r.Fail("R-VFG", h.short+":lookup-by-issuer", "", "the handler does not look the service provider up")
+			continue
+		}
+		want := "decoded:*" + strings.TrimPrefix(h.typ, "samlp.AttributeQueryType") + ".Issuer.Text"
+		if h.typ != "samlp.AttributeQueryType" {
+			want = "decoded:" + h.typ + ".Issuer.Text"
+		} else {
+			want = "decoded:*AttributeQuery*.Issuer.Text" // decoded as part of the SOAP envelope
+		}
+		r.checkSources("R-VFG", h.short+":lookup-by-issuer", w.InstrPos(sites[0]), ls, []string{want}, []string{want}, true)
+	}
+}
+
+// checkRequestNotRewritten: the issuer is derived from the request's Host and the configured forwarding headers as
+// they arrived. Module code does not assign Request.Host / Request.URL / Request.Header of the incoming request, and
+// the handler chain is not wrapped in third-party middleware known to do so (gorilla/handlers.ProxyHeaders sets
+// r.Host from X-Forwarded-Host, r.URL.Scheme from X-Forwarded-Proto and r.RemoteAddr from X-Forwarded-For).
+func (cx *Ctx) checkRequestNotRewritten(r *Report) {
+	w := cx.W
+	n := 0
+	for _, fn := range w.Funcs {
+		for _, c := range callsIn(fn) {
+			nm := calleeName(c)
+			if strings.HasSuffix(nm, "gorilla/handlers.ProxyHeaders") || strings.HasSuffix(nm, "middleware.RealIP") || strings.HasSuffix(nm, "gorilla/handlers.CanonicalHost") {
+				r.Fail("R-WHO", "request-rewriting-middleware@"+w.FuncKey(fn), w.InstrPos(c), shortCallee(nm)+" rewrites the Host / scheme of the request from X-Forwarded-* headers before the issuer is derived: the issuer follows a header that was not configured as a forwarding header")
+			}
+		}
+		for _, st := range cx.Fx.info(fn).stores {
+			fa, ok := st.Addr.(*ssa.FieldAddr)
+			if !ok {
+				continue
+			}
+			owner, field := fieldOwner(fa.X.Type()), fname(fieldVar(fa.X.Type(), fa.Field))
+			if owner == "http.Request" && (field == "Host" || field == "URL" || field == "Header") || owner == "url.URL" && (field == "Host" || field == "Scheme") {
+				n++
+				// a URL the module builds itself (url.Parse result, literal) is not the request's
+				if owner == "url.URL" {
+					if _, isAlloc := fa.X.(*ssa.Alloc); isAlloc {
+						continue
+					}
+					if c, isCall := fa.X.(*ssa.Extract); isCall {
+						_ = c
+						continue
+					}
+				}
+				r.Fail("R-WHO", "request-rewritten@"+w.FuncKey(fn), w.InstrPos(st), "module code assigns "+owner+"."+field+" of a request: the issuer derived afterwards no longer comes from the Host and forwarding headers that arrived")
+			}
+		}
+	}
+	r.Ok("R-WHO", "request-not-rewritten", "", fmt.Sprintf("no Host-rewriting middleware in the handler chain, %d candidate stores examined", n))
+}
